@@ -1,6 +1,7 @@
 import Driver.StrPath
 import Driver.TileD
 import Driver.StreamD
+import Driver.PrtD
 /-!
 # op2model — line-protocol driver for the executable model
 
@@ -13,6 +14,7 @@ def handlers : List (String → List String → Option String) :=
   handleStrPath ::
   handleTile ::
   handleStream ::
+  handlePrt ::
   []
 
 def dispatch (line : String) : String :=
